@@ -1,5 +1,7 @@
 package main
 
+import "strings"
+
 func init() { replayDrivers["closedguard-forceremove"] = replayClosedForceRemove }
 
 // replayClosedForceRemove: a filesystem over a closeable resource and a backend that
@@ -140,3 +142,125 @@ func TestVerifReplay(t *testing.T) {
 `
 	return "filesystem", src, "^TestVerifReplay$", false, nil
 }
+
+func init() { replayDrivers["lock-race"] = replayLockRace }
+
+// replayLockRace drives the two protocol races deterministically: an afero.Fs wrapper performs another contender's
+// step at the file-system primitive named by the failed obligation.
+func replayLockRace(ex *Exec, o *Obligation) (string, string, string, bool, error) {
+	scenario := lockScenarioUnlock
+	if strings.Contains(o.Name, "ReleaseIfStale") {
+		scenario = lockScenarioTakeover
+	}
+	src := strings.Replace(lockRaceTemplate, "//SCENARIO\n", scenario, 1)
+	return "filesystem", src, "^TestVerifReplay$", false, nil
+}
+
+const lockScenarioUnlock = `	// ---- 1. a release destroys a lock acquired afterwards by somebody else
+	dir := t.TempDir()
+	hook := &verifHookFs{Fs: base}
+	a := verifLock(hook, dir, false)
+	b := verifLock(base, dir, false)
+	c := verifLock(base, dir, false)
+	if err := a.TryLock(ctx); err != nil {
+		t.Fatal(err)
+	}
+	lockDir := filepath.Join(dir, "lockfile-verif")
+	injected := false
+	var bErr error
+	hook.afterRemove = func(name string, err error) {
+		if !injected && err == nil && name == lockDir {
+			injected = true
+			bErr = b.TryLock(ctx) // B acquires right after A's removal succeeded
+		}
+	}
+	aErr := a.Unlock(ctx)
+	if injected && bErr == nil {
+		cErr := c.TryLock(ctx)
+		if aErr == nil && cErr == nil {
+			_ = b.Unlock(ctx)
+			_ = c.Unlock(ctx)
+			t.Fatalf("REPRODUCED: B acquired the lock after A's removal, A's Unlock retried and removed B's lock (returned nil), then C acquired it too: B and C both hold")
+		}
+		_ = c.Unlock(ctx)
+	}
+	_ = b.Unlock(ctx)
+
+`
+
+const lockScenarioTakeover = `	// ---- 2. a stale lock is taken over by two contenders
+	dir2 := t.TempDir()
+	lockDir2 := filepath.Join(dir2, "lockfile-verif")
+	_ = os.MkdirAll(lockDir2, 0o755)
+	hb := filepath.Join(lockDir2, "verif.lock")
+	_ = os.WriteFile(hb, []byte("dead holder"), 0o644)
+	old := time.Now().Add(-time.Hour)
+	_ = os.Chtimes(hb, old, old)
+	_ = os.Chtimes(lockDir2, old, old)
+	hook2 := &verifHookFs{Fs: base}
+	bb := verifLock(hook2, dir2, true)
+	cc := verifLock(base, dir2, true)
+	injected2 := false
+	var ccErr error
+	hook2.beforeRemove = func(name string) {
+		if !injected2 && strings.HasPrefix(name, lockDir2) {
+			injected2 = true
+			ccErr = cc.TryLock(ctx) // C's complete takeover, before B's first removal
+		}
+	}
+	bbErr := bb.TryLock(ctx)
+	if injected2 && ccErr == nil && bbErr == nil {
+		_ = bb.Unlock(ctx)
+		_ = cc.Unlock(ctx)
+		t.Fatalf("REPRODUCED: the stale lock was taken over by two contenders: both TryLock calls returned nil")
+	}
+	_ = bb.Unlock(ctx)
+	_ = cc.Unlock(ctx)
+`
+
+const lockRaceTemplate = `package filesystem
+
+import (
+	"context"
+	"os"
+	"path/filepath"
+	"strings"
+	"testing"
+	"time"
+
+	"github.com/spf13/afero"
+)
+
+type verifHookFs struct {
+	afero.Fs
+	afterRemove  func(name string, err error)
+	beforeRemove func(name string)
+}
+
+func (h *verifHookFs) Remove(name string) error {
+	if h.beforeRemove != nil {
+		h.beforeRemove(name)
+	}
+	err := h.Fs.Remove(name)
+	if h.afterRemove != nil {
+		h.afterRemove(name, err)
+	}
+	return err
+}
+
+func verifLock(fs afero.Fs, dir string, override bool) ILock {
+	v := NewVirtualFileSystem(fs, StandardFS, IdentityPathConverterFunc).(*VFS)
+	return NewGenericRemoteLockFile(v, "verif", dir, override)
+}
+
+var _ = os.Getpid
+var _ = strings.Contains
+var _ = time.Now
+
+func TestVerifReplay(t *testing.T) {
+	ctx := context.Background()
+	base := afero.NewOsFs()
+//SCENARIO
+	t.Logf("NOT-REPRODUCED")
+}
+`
